@@ -336,12 +336,12 @@ Inductive meth :=
 | MType (d : dt).                              (* type(dtype); double() = MType F64, float() = MType F32 *)
 
 (* tensor primitives; n = next fresh storage id *)
-Definition t_clone (t : tensor) (n : nat) : tensor * nat := (T n (tdt t) (trg t), S n).
-Definition t_detach (t : tensor) : tensor := T (tid t) (tdt t) false.
+Definition t_clone (t : tensor) (n : nat) : tensor * nat := (T n (tvl t) (tdt t) (trg t), S n).
+Definition t_detach (t : tensor) : tensor := T (tid t) (tvl t) (tdt t) false.
 Definition t_to (d : option dt) (t : tensor) (n : nat) : tensor * nat :=
   match d with
   | None => (t, n)
-  | Some d' => if dt_eqb (tdt t) d' then (t, n) else (T n d' (trg t), S n)
+  | Some d' => if dt_eqb (tdt t) d' then (t, n) else (T n (tvl t) d' (trg t), S n)
   end.
 
 Fixpoint map_st {A B} (f : A -> nat -> option (B * nat)) (l : list A) (n : nat) : option (list B * nat) :=
